@@ -1,4 +1,4 @@
-import BB.Proofs.Store
+import BB.Proofs.StoreRegions
 /-!
 # C01 - Local store returns exactly what was uploaded, or nothing
 
@@ -44,5 +44,102 @@ theorem write_read (s : St) (t : Ticket) (data : List Nat) (h : data.length = t.
 theorem refresh_preserves (s : St) (t : Ticket) (src : Loc) (h : locSize src = t.size) :
     readLoc (copyLoc s t src) (mkLoc t.blk t.off t.size) = readLoc s src :=
   readLoc_copyLoc s t src h
+
+/-! ### The region invariant: what is visible is what was uploaded
+
+`RInv c P s T` (see `BB/Proofs/StoreRegions.lean`): every live index record lies inside the used
+prefix of a block of the list and its bytes satisfy `P key bytes`; every outstanding ticket in `T`
+(space reserved, copy possibly still running) lies inside the used prefix, tickets are pairwise
+disjoint and disjoint from every live record.  `P` is arbitrary: for the CAS it is "hashes to the
+digest behind the key", for the AC "is a value that was uploaded successfully for the key"; the
+obligation to establish `P` for freshly copied data sits exactly where the Go code validates it
+(the `copied` flag, C09).  The lemmas below are per lock region / unlocked action, so they compose
+over every interleaving of operations. -/
+
+theorem region_inv_init (c : Cfg) (P : Nat → List Nat → Prop) (hc : BB.BlockMap.CfgOK c.bm)
+    (hf : c.bm.policy.bound ≤ c.fuelGrow) (hg : 0 < c.idx.maxGet) (free : Nat) :
+    RInv c P { bm := BB.BlockMap.init c.bm [] free } [] := rinv_init c P hc hf hg free
+
+/-- Reserving space (incl. any rotations, quarantine releases and the resulting evictions). -/
+theorem region_inv_allocate {c : Cfg} {P : Nat → List Nat → Prop} {s s' : St} {T : List Ticket} {size : Nat} {t : Ticket}
+    (h : RInv c P s T) (ha : allocate c s size = .ok t s') : RInv c P s' (t :: T) := rinv_allocate h ha
+
+theorem region_inv_allocate_err {c : Cfg} {P : Nat → List Nat → Prop} {s s' : St} {T : List Ticket} {size : Nat} {e : String}
+    (h : RInv c P s T) (ha : allocate c s size = .err e s') : RInv c P s' T := rinv_allocate_err h ha
+
+/-- **Regions handed out are disjoint**: from each other and from everything that is visible. -/
+theorem region_disjoint {c : Cfg} {P : Nat → List Nat → Prop} {s : St} {T : List Ticket} (h : RInv c P s T) :
+    T.Pairwise DisjT ∧
+    ∀ t ∈ T, ∀ k l, BB.Index.InTab s.thr s.tab k l → Disjoint (locBlk l) (locOff l) (locSize l) t.blk t.off t.size :=
+  ⟨h.tickTick, h.tickRec⟩
+
+/-- The unlocked copy phase, chunk by chunk, in any interleaving: nothing visible changes. -/
+theorem region_inv_write {c : Cfg} {P : Nat → List Nat → Prop} {s : St} {T : List Ticket} (h : RInv c P s T)
+    (t : Ticket) (ht : t ∈ T) (a : Nat) (bs : List Nat) : RInv c P (writeAt s t a bs) T := rinv_write h t ht a bs
+
+/-- Publishing a ticket whose region holds valid content for the keys. -/
+theorem region_inv_finalize {c : Cfg} {P : Nat → List Nat → Prop} {s s' : St} {T : List Ticket} (h : RInv c P s T)
+    (t : Ticket) (ht : t ∈ T) (keys : List Nat) (hf : finalize c s t keys = some s')
+    (hP : ∀ k ∈ keys, P k (readLoc s (mkLoc t.blk t.off t.size))) : RInv c P s' (T.erase t) :=
+  rinv_finalize h t ht keys hf hP
+
+/-- A failed or overtaken upload is simply forgotten. -/
+theorem region_inv_abandon {c : Cfg} {P : Nat → List Nat → Prop} {s : St} {T : List Ticket} (h : RInv c P s T) (t : Ticket) :
+    RInv c P s (T.erase t) := rinv_abandon h t
+
+/-- Registering a sub-range of a live record under a key for which it is valid content: the slices of
+`GetFromComposite`, the canonical sync and the dedup upload of the hierarchical store. -/
+theorem region_inv_register {c : Cfg} {P : Nat → List Nat → Prop} {s : St} {T : List Ticket} (h : RInv c P s T)
+    (k : Nat) (l' : Loc) (k0 : Nat) (l0 : Loc) (h0 : BB.Index.InTab s.thr s.tab k0 l0) (hsub : SubRange l' l0)
+    (hP : P k (readLoc s l')) : RInv c P (indexPut c s k l') T := rinv_indexPut h k l' k0 l0 h0 hsub hP
+
+/-- Reader/writer reference counting and integrity reports do not disturb it. -/
+theorem region_inv_housekeeping {c : Cfg} {P : Nat → List Nat → Prop} {s : St} {T : List Ticket} (h : RInv c P s T)
+    (l : Loc) (blk : Nat) (hl : locBlk l < s.bm.released + s.bm.caps.length) :
+    RInv c P (pinLoc s l) T ∧ RInv c P { s with bm := BB.BlockMap.unpin s.bm blk } T ∧ RInv c P (reportBad s l) T :=
+  ⟨rinv_pinLoc h l, rinv_unpin h blk, rinv_reportBad h l hl⟩
+
+/-- **Read your uploads.** In every state reachable through the steps above - any history, any
+interleaving of the unlocked copy phases, any sizes, sector/block geometry and old/current/new
+counts - a lookup that resolves reads back bytes that are valid content for exactly that key:
+never another object's bytes, never a mixture, never a partially written object. With
+`P k bytes := "bytes hash to the digest behind k"` this also says that re-validating a read on an
+uncorrupted medium cannot fail. -/
+theorem read_your_uploads {c : Cfg} {P : Nat → List Nat → Prop} {s : St} {T : List Ticket} (h : RInv c P s T)
+    (k : Nat) (l : Loc) (hl : lookup c s k = some l) : P k (readLoc s l) := rinv_read h k l hl
+
+/-- End of a flat upload as one step: the writer's pin is dropped, and the object is published
+only if the copy succeeded, the region holds valid content and the block is still there. -/
+theorem region_inv_flatPutEnd {c : Cfg} {P : Nat → List Nat → Prop} {s : St} {T : List Ticket} (h : RInv c P s T)
+    (t : Ticket) (ht : t ∈ T) (k : Nat) (copied : Bool)
+    (hP : copied = true → P k (readLoc s (mkLoc t.blk t.off t.size))) :
+    RInv c P (flatPutEnd c s t k copied).2 (T.erase t) := by
+  have h1 : RInv c P (unpinTicket s t) T := rinv_unpin h t.blk
+  unfold flatPutEnd
+  cases copied
+  · simpa using rinv_abandon h1 t
+  · simp only [Bool.not_true, Bool.false_eq_true, if_false]
+    cases hf : finalize c (unpinTicket s t) t [k] with
+    | none => simpa using rinv_abandon h1 t
+    | some s' =>
+      have := rinv_finalize h1 t ht [k] hf (by
+        intro k' hk'
+        simp at hk'; subst hk'
+        exact hP rfl)
+      simpa using this
+
+/-- Non-vacuity: a complete upload into the empty store, then a read. -/
+def exampleRun : Option (List Nat) :=
+  let c : Cfg := { idx := { slot := fun _ a => a % 2, maxGet := 2, maxPut := 4 },
+                   bm := ⟨.immutable ⟨2⟩, 8, 1, 1⟩, fuelGrow := 10 }
+  let s0 : St := { bm := BB.BlockMap.init c.bm [] 100 }
+  match allocate c s0 3 with
+  | .ok t s1 =>
+    let s2 := writeAt s1 t 0 [7, 8, 9]
+    let s3 := (flatPutEnd c s2 t 5 true).2
+    (lookup c s3 5).map (readLoc s3)
+  | _ => none
+
+example : exampleRun = some [7, 8, 9] := by decide
 
 end BB.C01
